@@ -275,8 +275,78 @@ Fixpoint insert_by_off (x : bool * note) (l : list (bool * note)) : list (bool *
   end.
 Definition sort_by_off (l : list (bool * note)) : list (bool * note) := fold_right insert_by_off [] l.
 
+(* unidecode(...).replace("\n", " "): a transliterated value stays on its line (repo commit fde22cd) *)
+Definition one_line (s : text) : text := map (fun c => if c =? NL then SPACE else c) s.
+
 (* write_meta_string_list; ut / ua = unidecode(title) / unidecode(artist) (external oracle) *)
 Definition write_meta (c : chart) (ut ua : text) : list wline :=
+  let m := c_meta c in
+  let s i := meta_str m i in let n i := meta_num m i in let b i := show_int (bool_z (meta_bool m i)) in
+  [ [WT (t "osu file format v14")]; [WT []]; [WT (t "[General]")];
+    [WT (t "AudioFilename: " ++ s 0%nat)];
+    [WT (t "AudioLeadIn: "); WI (n 1%nat)];
+    [WT (t "PreviewTime: " ++ show_int (qtrunc (n 2%nat)))];
+    [WT (t "Countdown: " ++ b 3%nat)];
+    [WT (t "SampleSet: " ++ sampleset_to_string (n 4%nat))];
+    [WT (t "StackLeniency: "); WN (n 5%nat)];
+    [WT (t "Mode: "); WI (n 6%nat)];
+    [WT (t "LetterboxInBreaks: " ++ b 7%nat)];
+    [WT (t "SpecialStyle: " ++ b 8%nat)];
+    [WT (t "WidescreenStoryboard: " ++ b 9%nat)];
+    [WT []]; [WT (t "[Editor]")];
+    [WT (t "DistanceSpacing: "); WN (n 10%nat)];
+    [WT (t "BeatDivisor: "); WI (n 11%nat)];
+    [WT (t "GridSize: "); WI (n 12%nat)];
+    [WT (t "TimelineZoom: "); WN (n 13%nat)];
+    [WT []]; [WT (t "[Metadata]")];
+    [WT (t "Title:" ++ one_line ut)];
+    [WT (t "TitleUnicode:" ++ s 15%nat)];
+    [WT (t "Artist:" ++ one_line ua)];
+    [WT (t "ArtistUnicode:" ++ s 17%nat)];
+    [WT (t "Creator:" ++ s 18%nat)];
+    [WT (t "Version:" ++ s 19%nat)];
+    [WT (t "Source:" ++ s 20%nat)];
+    [WT (t "Tags:" ++ join SPACE (meta_tags m 21%nat))];
+    [WT (t "BeatmapID:"); WI (n 22%nat)];
+    [WT (t "BeatmapSetID:"); WI (n 23%nat)];
+    [WT []]; [WT (t "[Difficulty]")];
+    [WT (t "HPDrainRate:"); WN (n 24%nat)];
+    [WT (t "CircleSize:"); WN (n 25%nat)];
+    [WT (t "OverallDifficulty:"); WN (n 26%nat)];
+    [WT (t "ApproachRate:"); WN (n 27%nat)];
+    [WT (t "SliderMultiplier:"); WN (n 28%nat)];
+    [WT (t "SliderTickRate:"); WN (n 29%nat)];
+    [WT []]; [WT (t "[Events]")];
+    [WT BG_MARK];
+    [WT (t "0,0," ++ QUOTE :: c_bg c ++ QUOTE :: t ",0,0")];
+    [WT (t "//Break Periods")];
+    [WT (t "//Storyboard Layer 0 (Background)")];
+    [WT (t "//Storyboard Layer 1 (Fail)")];
+    [WT (t "//Storyboard Layer 2 (Pass)")];
+    [WT (t "//Storyboard Layer 3 (Foreground)")];
+    [WT (t "//Storyboard Layer 4 (Overlay)")];
+    [WT SAMPLE_MARK] ]
+  ++ map (fun x => [WT (write_sample x)]) (c_samples c).
+
+Definition write_notes (c : chart) (k : Z) : list text :=
+  map (fun p : bool * note => if fst p then write_hold (snd p) k else write_hit (snd p) k)
+      (sort_by_off (map (fun x => (true, x)) (c_holds c) ++ map (fun x => (false, x)) (c_hits c))).
+
+(* OsuMap.write(): a list of strings, two of which carry embedded newlines *)
+Definition osu_write (c : chart) (ut ua : text) : option (list wline) :=
+  let k := qtrunc (meta_num (c_meta c) IX_CS) in
+  do bl <- omap write_bpm (c_bpms c);
+  do sl <- omap write_sv (c_svs c);
+  if (k <=? 0) && negb (match c_holds c, c_hits c with [], [] => true | _, _ => false end)
+  then None                                                  (* assert keys > 0 *)
+  else Some (write_meta c ut ua
+             ++ [[WT (NL :: TP_HEADER)]] ++ bl ++ sl
+             ++ [[WT (NL :: NL :: HO_HEADER)]]
+             ++ map (fun s => [WT s]) (write_notes c k)).
+
+(* HISTORICAL: write_meta_string_list before repo commit fde22cd wrote unidecode(title) / unidecode(artist) as they are,
+   line feeds included (unidecode maps U+2028 / U+2029 to line feeds).  Not part of the model any more. *)
+Definition write_meta_OLD (c : chart) (ut ua : text) : list wline :=
   let m := c_meta c in
   let s i := meta_str m i in let n i := meta_num m i in let b i := show_int (bool_z (meta_bool m i)) in
   [ [WT (t "osu file format v14")]; [WT []]; [WT (t "[General]")];
@@ -325,21 +395,18 @@ Definition write_meta (c : chart) (ut ua : text) : list wline :=
     [WT SAMPLE_MARK] ]
   ++ map (fun x => [WT (write_sample x)]) (c_samples c).
 
-Definition write_notes (c : chart) (k : Z) : list text :=
-  map (fun p : bool * note => if fst p then write_hold (snd p) k else write_hit (snd p) k)
-      (sort_by_off (map (fun x => (true, x)) (c_holds c) ++ map (fun x => (false, x)) (c_hits c))).
 
-(* OsuMap.write(): a list of strings, two of which carry embedded newlines *)
-Definition osu_write (c : chart) (ut ua : text) : option (list wline) :=
+Definition osu_write_OLD (c : chart) (ut ua : text) : option (list wline) :=
   let k := qtrunc (meta_num (c_meta c) IX_CS) in
   do bl <- omap write_bpm (c_bpms c);
   do sl <- omap write_sv (c_svs c);
   if (k <=? 0) && negb (match c_holds c, c_hits c with [], [] => true | _, _ => false end)
   then None                                                  (* assert keys > 0 *)
-  else Some (write_meta c ut ua
+  else Some (write_meta_OLD c ut ua
              ++ [[WT (NL :: TP_HEADER)]] ++ bl ++ sl
              ++ [[WT (NL :: NL :: HO_HEADER)]]
              ++ map (fun s => [WT s]) (write_notes c k)).
+
 
 (* "\n".join(lines).split("\n"): the lines a file written by write_file is read back as *)
 Definition file_lines (ls : list text) : list text := split_on NL (join NL ls).
